@@ -183,7 +183,7 @@ UNITS["codec"] = {
     "pieces": types() + [
         items("src/range_proof.rs", ["SERIALIZED_ELEMENT_SIZE", "FIXED_PROOF_ELEMENTS", "ENCODED_EXTENSION_SIZE"]),
         text("spec/spec_codec.rs"),
-        fns("src/range_proof.rs", RP_HEADER, "RangeProof", fns=["to_bytes", "from_bytes", "extension_degree_from_proof_bytes"], opdesugar=False,
+        fns("src/range_proof.rs", RP_HEADER, "RangeProof", fns=["to_bytes", "from_bytes", "extension_degree_from_proof_bytes", "extension_degree"], opdesugar=False,
             renames=DEFAULT_RENAMES_PLUS_TRYINTO, notryinto=True),
         text("spec/canaries_codec.rs"),
     ],
